@@ -117,6 +117,17 @@ Definition add_keys {A} (keys : A -> list string) (ix : index A) (o : A) : index
 Definition build_index {A} (keys : A -> list string) (objs : list A) : index A :=
   fold_left (add_keys keys) objs [].
 
+(* specification of the builders' loop: the object that ends up under key k is the LAST object (in
+   iteration order) that writes k (proved in Proofs/C19_Deepen.v for every list, no wf needed) *)
+Fixpoint last_with {A} (keys : A -> list string) (k : string) (l : list A) : option A :=
+  match l with
+  | [] => None
+  | o :: t => match last_with keys k t with
+              | Some x => Some x
+              | None => if existsb (String.eqb k) (keys o) then Some o else None
+              end
+  end.
+
 (* l.150-152, in assignment order *)
 Definition element_keys (e : element) : list string :=
   [lower (e_symbol e); lower (e_name e); zstr (e_Z e)].
